@@ -224,7 +224,7 @@ func vC04SOA(zone string, ttl, min uint32) *dns.SOA {
 
 // vC04GenResponse builds an upstream-shaped response for qname/A:
 // kind 0 positive, 1 NXDOMAIN, 2 NODATA, 3 referral, 4 empty NOERROR,
-// 5 SERVFAIL, 6 positive with a foreign-owner tail record. signed adds
+// 5 SERVFAIL, 6 positive with a foreign-owner tail record, 7 bare NXDOMAIN. signed adds
 // RRSIGs with arbitrary windows relative to the wall clock.
 func vC04GenResponse(r *rand.Rand, qname string, kind int, signed bool) *dns.Msg {
 	m := new(dns.Msg)
@@ -277,6 +277,8 @@ func vC04GenResponse(r *rand.Rand, qname string, kind int, signed bool) *dns.Msg
 		m.Ns = append(m.Ns, &dns.NS{Hdr: dns.RR_Header{Name: parent, Rrtype: dns.TypeNS, Class: dns.ClassINET, Ttl: vC04TTL(r)}, Ns: "ns1." + zone})
 		m.Extra = append(m.Extra, &dns.A{Hdr: dns.RR_Header{Name: "ns1." + zone, Rrtype: dns.TypeA, Class: dns.ClassINET, Ttl: vC04TTL(r)}, A: []byte{192, 0, 2, 53}})
 	case 4:
+	case 7: // bare NXDOMAIN: no SOA
+		m.Rcode = dns.RcodeNameError
 	case 5:
 		m.Rcode = dns.RcodeServerFailure
 	}
